@@ -152,7 +152,16 @@ package mcp
 //@ func validateRequestMeta [C06]
 //@   track decodeMetaValue as decCaps when $1 == MetaKeyClientCapabilities
 //@   track decodeMetaValue as decInfo when $1 == MetaKeyClientInfo
+//@   track extractRequestMeta as extract
+//@   ghost meta := callResult(extract, 1, 0)
 //@   requires req != nil
+// The decision is taken on the decoded _meta object of this request (a JSON key may be spelled with escapes: the
+// raw bytes say nothing), and a request counts as legacy only if that object names no version >= 2026-07-28.
+//@   ensures @the-decision-is-taken-on-the-decoded-metadata calls(extract) == 1 && callArg(extract, 1, 0) == old(req.Params)
+//@   ensures @legacy-only-if-the-decoded-metadata-names-no-new-version result.1 == nil && !result.0.usesNewProtocol ==> meta == nil || !(MetaKeyProtocolVersion in meta)
+//@        || !typeIs(meta[MetaKeyProtocolVersion], string) || meta[MetaKeyProtocolVersion].(string) < protocolVersion20260728
+//@   ensures @the-version-served-is-the-one-named result.1 == nil && result.0.usesNewProtocol ==> meta != nil && typeIs(meta[MetaKeyProtocolVersion], string)
+//@        && result.0.initializeParams.ProtocolVersion == meta[MetaKeyProtocolVersion].(string)
 //@   ensures @some-answer result.1 == nil ==> result.0 != nil
 //@   ensures @new-needs-2026 result.1 == nil && result.0.usesNewProtocol ==> result.0.initializeParams != nil
 //@        && result.0.initializeParams.ProtocolVersion >= protocolVersion20260728
